@@ -38,21 +38,21 @@ func TestMain(m *testing.M) {
 }
 
 // root message types the generator starts from (all linked into the module already)
-var roots = []proto.Message{
+var vfRoots = []proto.Message{
 	&structpb.Value{}, &structpb.Struct{}, &structpb.ListValue{}, &descriptorpb.FileDescriptorProto{}, &descriptorpb.DescriptorProto{}, &descriptorpb.FieldOptions{},
 	&datastorepb.Entity{}, &datastorepb.Value{}, &datastorepb.Key{}, &datastorepb.CommitRequest{}, &datastorepb.RunQueryRequest{}, &datastorepb.LookupResponse{}, &datastorepb.Mutation{},
 	&anypb.Any{}, &wrapperspb.BytesValue{}, &wrapperspb.StringValue{}, &wrapperspb.DoubleValue{}, &wrapperspb.Int64Value{}, &apipb.Api{}, &typepb.Type{},
 }
 
-type codecCase struct {
+type vfCodecCase struct {
 	Property string `json:"property,omitempty"`
 	Type     string `json:"type"`
 	Wire     string `json:"wireHex"` // standard encoding of the generated message (how the replay rebuilds it)
 	Failure  string `json:"failure,omitempty"`
 }
 
-// crc32c is a bitwise, table-free reference (Castagnoli, reflected polynomial 0x82F63B78).
-func crc32c(b []byte) uint32 {
+// vfCrc32c is a bitwise, table-free reference (Castagnoli, reflected polynomial 0x82F63B78).
+func vfCrc32c(b []byte) uint32 {
 	crc := ^uint32(0)
 	for _, x := range b {
 		crc ^= uint32(x)
@@ -67,15 +67,15 @@ func crc32c(b []byte) uint32 {
 	return ^crc
 }
 
-type wireField struct {
+type vfWireField struct {
 	num protowire.Number
 	typ protowire.Type
 	raw []byte
 }
 
-// walk splits b into its top-level fields (harness-written, only protowire's primitive readers).
-func walk(b []byte) ([]wireField, error) {
-	var out []wireField
+// vfWalk splits b into its top-level fields (harness-written, only protowire's primitive readers).
+func vfWalk(b []byte) ([]vfWireField, error) {
+	var out []vfWireField
 	for len(b) > 0 {
 		num, typ, n := protowire.ConsumeTag(b)
 		if n < 0 {
@@ -85,13 +85,13 @@ func walk(b []byte) ([]wireField, error) {
 		if m < 0 {
 			return nil, fmt.Errorf("bad value of field %d", num)
 		}
-		out = append(out, wireField{num, typ, b[:n+m]})
+		out = append(out, vfWireField{num, typ, b[:n+m]})
 		b = b[n+m:]
 	}
 	return out, nil
 }
 
-func hasMap(m protoreflect.Message, depth int) bool {
+func vfHasMap(m protoreflect.Message, depth int) bool {
 	found := false
 	m.Range(func(fd protoreflect.FieldDescriptor, v protoreflect.Value) bool {
 		switch {
@@ -101,7 +101,7 @@ func hasMap(m protoreflect.Message, depth int) bool {
 			}
 			if fd.MapValue().Message() != nil {
 				v.Map().Range(func(_ protoreflect.MapKey, mv protoreflect.Value) bool {
-					if hasMap(mv.Message(), depth+1) {
+					if vfHasMap(mv.Message(), depth+1) {
 						found = true
 					}
 					return true
@@ -109,12 +109,12 @@ func hasMap(m protoreflect.Message, depth int) bool {
 			}
 		case fd.IsList() && fd.Message() != nil:
 			for i := 0; i < v.List().Len(); i++ {
-				if hasMap(v.List().Get(i).Message(), depth+1) {
+				if vfHasMap(v.List().Get(i).Message(), depth+1) {
 					found = true
 				}
 			}
 		case fd.Message() != nil:
-			if hasMap(v.Message(), depth+1) {
+			if vfHasMap(v.Message(), depth+1) {
 				found = true
 			}
 		}
@@ -123,7 +123,7 @@ func hasMap(m protoreflect.Message, depth int) bool {
 	return found
 }
 
-func stripChecksum(m proto.Message) int {
+func vfStripChecksum(m proto.Message) int {
 	u := m.ProtoReflect().GetUnknown()
 	var kept []byte
 	n := 0
@@ -147,7 +147,7 @@ func stripChecksum(m proto.Message) int {
 	return n
 }
 
-func checkCodec(m proto.Message) (failure string, labels map[string]int) {
+func vfCheckCodec(m proto.Message) (failure string, labels map[string]int) {
 	labels = map[string]int{}
 	c := &myCodec{protoCodec: encoding.GetCodec(grpcproto.Name)}
 	orig := proto.Clone(m)
@@ -176,27 +176,27 @@ func checkCodec(m proto.Message) (failure string, labels map[string]int) {
 		return "Marshal changed the message", labels
 	}
 	// outputs handed out earlier must stay what they were (no aliasing of internal buffers)
-	for _, r := range recent {
+	for _, r := range vfRecent {
 		if !bytes.Equal(r.out, r.snap) {
 			return fmt.Sprintf("an output returned by an earlier Marshal call (%d bytes) was overwritten by a later call: was % x, now % x", len(r.snap), r.snap, r.out), labels
 		}
 	}
-	recent = append(recent, held{out, append([]byte{}, out...)})
-	if len(recent) > 8 {
-		recent = recent[1:]
+	vfRecent = append(vfRecent, vfHeld{out, append([]byte{}, out...)})
+	if len(vfRecent) > 8 {
+		vfRecent = vfRecent[1:]
 	}
 	if len(out) < 6 || out[0] != 0xFD || out[1] != 0x7F {
 		return fmt.Sprintf("output does not start with the tag of field 2047 / 32-bit (FD 7F): % x", out[:min(len(out), 8)]), labels
 	}
 	body := out[6:]
 	got := uint32(out[2]) | uint32(out[3])<<8 | uint32(out[4])<<16 | uint32(out[5])<<24
-	if want := crc32c(body); got != want {
+	if want := vfCrc32c(body); got != want {
 		return fmt.Sprintf("checksum field carries %08x, CRC32C of the payload is %08x", got, want), labels
 	}
 	if len(body) != proto.Size(m) {
 		return fmt.Sprintf("payload has %d bytes, proto.Size is %d", len(body), proto.Size(m)), labels
 	}
-	fields, err := walk(out)
+	fields, err := vfWalk(out)
 	if err != nil {
 		return "output is not a well-formed protobuf encoding: " + err.Error(), labels
 	}
@@ -210,7 +210,7 @@ func checkCodec(m proto.Message) (failure string, labels map[string]int) {
 			}
 		}
 	}
-	bodyFields, err := walk(body)
+	bodyFields, err := vfWalk(body)
 	if err != nil {
 		return "payload is not a well-formed protobuf encoding: " + err.Error(), labels
 	}
@@ -222,7 +222,7 @@ func checkCodec(m proto.Message) (failure string, labels map[string]int) {
 			return fmt.Sprintf("top-level field #%d of the output differs from the payload", i+1), labels
 		}
 	}
-	mapFree := !hasMap(m.ProtoReflect(), 0)
+	mapFree := !vfHasMap(m.ProtoReflect(), 0)
 	if mapFree {
 		labels["map-free"]++
 		std, err := proto.MarshalOptions{Deterministic: true}.Marshal(m)
@@ -252,11 +252,11 @@ func checkCodec(m proto.Message) (failure string, labels map[string]int) {
 		ownBefore := 0
 		{
 			o := proto.Clone(orig)
-			ownBefore = stripChecksum(o)
+			ownBefore = vfStripChecksum(o)
 		}
-		removed := stripChecksum(v)
+		removed := vfStripChecksum(v)
 		o := proto.Clone(orig)
-		stripChecksum(o)
+		vfStripChecksum(o)
 		if removed != ownBefore+1 {
 			return fmt.Sprintf("%s: decoded message carries %d unknown fields 2047/fixed32, want %d", name, removed, ownBefore+1), labels
 		}
@@ -278,7 +278,7 @@ func checkCodec(m proto.Message) (failure string, labels map[string]int) {
 
 // ---- descriptor-driven filler ----------------------------------------------------------------------
 
-func genScalar(rt *rapid.T, fd protoreflect.FieldDescriptor) protoreflect.Value {
+func vfGenScalar(rt *rapid.T, fd protoreflect.FieldDescriptor) protoreflect.Value {
 	switch fd.Kind() {
 	case protoreflect.BoolKind:
 		return protoreflect.ValueOfBool(rapid.Bool().Draw(rt, "b"))
@@ -314,7 +314,7 @@ func genScalar(rt *rapid.T, fd protoreflect.FieldDescriptor) protoreflect.Value 
 	return protoreflect.Value{}
 }
 
-func fillMsg(rt *rapid.T, m protoreflect.Message, depth int) {
+func vfFillMsg(rt *rapid.T, m protoreflect.Message, depth int) {
 	fds := m.Descriptor().Fields()
 	for i := 0; i < fds.Len(); i++ {
 		fd := fds.Get(i)
@@ -333,13 +333,13 @@ func fillMsg(rt *rapid.T, m protoreflect.Message, depth int) {
 			mp := m.Mutable(fd).Map()
 			n := rapid.IntRange(0, 3).Draw(rt, "maplen")
 			for j := 0; j < n; j++ {
-				k := genScalar(rt, fd.MapKey()).MapKey()
+				k := vfGenScalar(rt, fd.MapKey()).MapKey()
 				if fd.MapValue().Message() != nil {
 					v := mp.NewValue()
-					fillMsg(rt, v.Message(), depth-1)
+					vfFillMsg(rt, v.Message(), depth-1)
 					mp.Set(k, v)
 				} else {
-					mp.Set(k, genScalar(rt, fd.MapValue()))
+					mp.Set(k, vfGenScalar(rt, fd.MapValue()))
 				}
 			}
 		case fd.IsList():
@@ -351,16 +351,16 @@ func fillMsg(rt *rapid.T, m protoreflect.Message, depth int) {
 			for j := 0; j < n; j++ {
 				if isMsg {
 					v := l.NewElement()
-					fillMsg(rt, v.Message(), depth-1)
+					vfFillMsg(rt, v.Message(), depth-1)
 					l.Append(v)
 				} else {
-					l.Append(genScalar(rt, fd))
+					l.Append(vfGenScalar(rt, fd))
 				}
 			}
 		case isMsg:
-			fillMsg(rt, m.Mutable(fd).Message(), depth-1)
+			vfFillMsg(rt, m.Mutable(fd).Message(), depth-1)
 		default:
-			m.Set(fd, genScalar(rt, fd))
+			m.Set(fd, vfGenScalar(rt, fd))
 		}
 	}
 	if rapid.IntRange(0, 5).Draw(rt, "unknown") == 0 {
@@ -383,26 +383,26 @@ func fillMsg(rt *rapid.T, m protoreflect.Message, depth int) {
 	}
 }
 
-func genMessage(rt *rapid.T) proto.Message {
-	root := rapid.SampledFrom(roots).Draw(rt, "root")
+func vfGenMessage(rt *rapid.T) proto.Message {
+	root := rapid.SampledFrom(vfRoots).Draw(rt, "root")
 	m := root.ProtoReflect().New()
-	fillMsg(rt, m, rapid.IntRange(0, 5).Draw(rt, "depth"))
+	vfFillMsg(rt, m, rapid.IntRange(0, 5).Draw(rt, "depth"))
 	return m.Interface()
 }
 
-type held struct{ out, snap []byte }
+type vfHeld struct{ out, snap []byte }
 
-var recent []held
+var vfRecent []vfHeld
 
-type failingCodec struct{ err error }
+type vfFailingCodec struct{ err error }
 
-func (f failingCodec) Marshal(v interface{}) ([]byte, error)   { return []byte("partial"), f.err }
-func (f failingCodec) Unmarshal(b []byte, v interface{}) error { return f.err }
-func (f failingCodec) Name() string                            { return "failing" }
+func (f vfFailingCodec) Marshal(v interface{}) ([]byte, error)   { return []byte("partial"), f.err }
+func (f vfFailingCodec) Unmarshal(b []byte, v interface{}) error { return f.err }
+func (f vfFailingCodec) Name() string                            { return "failing" }
 
-func checkErrors() string {
+func vfCheckErrors() string {
 	e := errors.New("underlying codec failed")
-	c := &myCodec{protoCodec: failingCodec{e}}
+	c := &myCodec{protoCodec: vfFailingCodec{e}}
 	if _, err := c.Marshal(&structpb.Value{}); err != e {
 		return fmt.Sprintf("error of the underlying codec not passed through: %v", err)
 	}
@@ -417,14 +417,14 @@ func checkErrors() string {
 	return ""
 }
 
-func runOne(m proto.Message) (*codecCase, string, map[string]int) {
+func vfRunOne(m proto.Message) (*vfCodecCase, string, map[string]int) {
 	std, _ := proto.MarshalOptions{Deterministic: true}.Marshal(m)
-	c := &codecCase{Type: string(m.ProtoReflect().Descriptor().FullName()), Wire: hex.EncodeToString(std)}
-	f, l := checkCodec(m)
+	c := &vfCodecCase{Type: string(m.ProtoReflect().Descriptor().FullName()), Wire: hex.EncodeToString(std)}
+	f, l := vfCheckCodec(m)
 	return c, f, l
 }
 
-func fromCase(c *codecCase) (proto.Message, error) {
+func vfFromCase(c *vfCodecCase) (proto.Message, error) {
 	mt, err := protoregistry.GlobalTypes.FindMessageByName(protoreflect.FullName(c.Type))
 	if err != nil {
 		return nil, err
@@ -440,19 +440,19 @@ func fromCase(c *codecCase) (proto.Message, error) {
 func TestC19(t *testing.T) {
 	st := hx.For("C19")
 	replay := func(p string) {
-		var c codecCase
+		var c vfCodecCase
 		if err := hx.Load(p, &c); err != nil {
 			t.Fatal(err)
 		}
-		m, err := fromCase(&c)
+		m, err := vfFromCase(&c)
 		if err != nil {
 			t.Fatalf("%s: %v", p, err)
 		}
-		cc, f, l := runOne(m)
-		for _, r := range roots {
+		cc, f, l := vfRunOne(m)
+		for _, r := range vfRoots {
 			// later Marshal calls must not disturb the output of the replayed one
 			if f == "" {
-				_, f, _ = runOne(r.ProtoReflect().New().Interface())
+				_, f, _ = vfRunOne(r.ProtoReflect().New().Interface())
 			}
 		}
 		if f != "" {
@@ -470,19 +470,19 @@ func TestC19(t *testing.T) {
 		replay(p)
 		st.Label("corpus-replayed", 1)
 	}
-	if f := checkErrors(); f != "" {
+	if f := vfCheckErrors(); f != "" {
 		hx.WriteReplay("C19", map[string]string{"property": "C19", "failure": f})
 		t.Fatal(f)
 	}
-	for _, r := range roots { // every root type empty
-		if _, f, _ := runOne(r.ProtoReflect().New().Interface()); f != "" {
+	for _, r := range vfRoots { // every root type empty
+		if _, f, _ := vfRunOne(r.ProtoReflect().New().Interface()); f != "" {
 			t.Fatalf("empty %T: %s", r, f)
 		}
 		st.AddCases(1)
 	}
 	rapid.Check(t, func(rt *rapid.T) {
-		m := genMessage(rt)
-		c, f, l := runOne(m)
+		m := vfGenMessage(rt)
+		c, f, l := vfRunOne(m)
 		if f != "" {
 			st.Failed()
 			c.Failure, c.Property = f, "C19"
@@ -499,11 +499,11 @@ func FuzzC19(f *testing.F) {
 	f.Add(uint8(0), []byte{0x0a, 0x00})
 	f.Add(uint8(6), []byte{})
 	f.Fuzz(func(t *testing.T, which uint8, data []byte) {
-		m := roots[int(which)%len(roots)].ProtoReflect().New().Interface()
+		m := vfRoots[int(which)%len(vfRoots)].ProtoReflect().New().Interface()
 		if proto.Unmarshal(data, m) != nil {
 			return
 		}
-		c, fl, _ := runOne(m)
+		c, fl, _ := vfRunOne(m)
 		if fl != "" {
 			c.Failure, c.Property = fl, "C19"
 			hx.WriteReplay("C19", c)
